@@ -76,14 +76,19 @@ class World:
         self.serial = 0
 
     def exc(self, tree):
-        if isinstance(tree, int):
-            self.serial += 1
-            e = self.cls[tree](self.serial)
-            e.serial = self.serial
-        else:
-            e = self.Concurrent(*[self.exc(t) for t in tree])
+        """a fresh exception; its leaf instances are numbered 0, 1, .. in construction (= in-order) order"""
+        self.serial = 0
+        e = self._exc(tree)
         self.keep.append(e)
         return e
+
+    def _exc(self, tree):
+        if isinstance(tree, int):
+            e = self.cls[tree](self.serial)
+            e.serial = self.serial
+            self.serial += 1
+            return e
+        return self.Concurrent(*[self._exc(t) for t in tree])
 
     def handler(self, h, canonical=False):
         """the class for descriptor h, written as the descriptor says (or members in the given order,
@@ -212,8 +217,8 @@ def monitor_pair(w, tree, h, exc=None, H=None):
     return expected, v, problems
 
 
-def monitor_flatten(w, tree):
-    exc = w.exc(tree)
+def monitor_flatten(w, tree, exc=None):
+    exc = w.exc(tree) if exc is None else exc
 
     def walk(e):
         if isinstance(e, w.Concurrent):
@@ -270,8 +275,9 @@ HEADER = ('From Coq Require Import List ZArith Bool.\nImport ListNotations.\n'
           'From Usim Require Import ConcMatch.\nOpen Scope nat_scope.\n')
 
 
-def nats(l):
-    return '[%s]' % '; '.join(str(x) for x in l)
+def bools(true_indices, n):
+    s = set(true_indices)
+    return '[%s]' % ';'.join('true' if j in s else 'false' for j in range(n))
 
 
 # ---------------------------------------------------------------------------------------------------
@@ -367,6 +373,20 @@ def record(ctx, case, problems, d10):
             ctx.fail(case, expl, finding=None, family=case['kind'])
 
 
+def build(ctx, w, what, desc):
+    """construct a raised failure / a handler class; a construction that raises is a monitor failure"""
+    try:
+        return w.exc(desc) if what == 'raised' else w.handler(desc)
+    except BaseException as e:   # noqa
+        record(ctx, {'kind': 'build', what: desc}, [(build_problem(what, desc, e), None)], [])
+        return None
+
+
+def build_problem(what, desc, e):
+    return 'constructing %s raised %s: %s' % (
+        show_tree(desc) if what == 'raised' else show_handler(desc), type(e).__name__, e)
+
+
 def coq_results(ctx, paths, kinds):
     """run case files; returns {path: parsed}; machinery problems are correspondence mismatches"""
     res = ctx.run_case_files(paths)
@@ -385,10 +405,10 @@ def coq_results(ctx, paths, kinds):
 
 
 def run_table(ctx, w, d10):
-    raised = table_raised()
-    handlers = table_handlers(ctx.rng)
-    excs = [w.exc(t) for t in raised]
-    Hs = [w.handler(h) for h in handlers]
+    raised = [(t, build(ctx, w, 'raised', t)) for t in table_raised()]
+    handlers = [(h, build(ctx, w, 'handler', h)) for h in table_handlers(ctx.rng)]
+    raised, excs = [t for t, e in raised if e is not None], [e for t, e in raised if e is not None]
+    handlers, Hs = [h for h, H in handlers if H is not None], [H for h, H in handlers if H is not None]
     rows = []
     ntrue = 0
     for i, (t, e) in enumerate(zip(raised, excs)):
@@ -412,14 +432,15 @@ def run_table(ctx, w, d10):
             ctx.bump('table_handler_listed_%d%s' % (len(set(map(str, h['m']))), '_ellipsis' if h['inc'] else ''))
     ctx.bump('table_pairs_match', ntrue)
     ctx.bump('table_pairs_no_match', len(raised) * len(handlers) - ntrue)
-    ctx.sample(dict(raised=show_tree(raised[57]), handler=show_handler(handlers[123])))
+    if len(raised) > 57 and len(handlers) > 123:
+        ctx.sample(dict(raised=show_tree(raised[57]), handler=show_handler(handlers[123])))
     # ---- model side
     hdef = 'Definition handlers : list ty := [\n  %s].\n' % ';\n  '.join(coq_handler(h) for h in handlers)
     paths, kinds, chunks = [], {}, {}
     per = 29
     for c in range(0, len(rows), per):
         chunk = rows[c:c + per]
-        body = ';\n  '.join('(%d, %s, (%s, %s, %s))' % (i, coq_exc(e, w), nats(l[0]), nats(l[1]), nats(l[2]))
+        body = ';\n  '.join('(%d, %s, (%s, %s, %s))' % ((i, coq_exc(e, w)) + tuple(bools(x, len(handlers)) for x in l))
                             for i, e, l in chunk)
         text = (HEADER + hdef + 'Definition rows : list row := [\n  %s].\n' % body +
                 'Eval vm_compute in (bad_rows hier_sub handlers rows).\n')
@@ -475,17 +496,25 @@ def run_identity(ctx, w, raised, excs, handlers, Hs):
     # other spellings of every handler: canonical order, reversed order
     for h, H in zip(handlers, Hs):
         if isinstance(h, dict):
-            for variant in (w.handler(h, canonical=True), w.handler(spec(reversed(h['m']), h['inc'], ell=0))):
-                if variant is not H:
+            for variant in (lambda: w.handler(h, canonical=True), lambda: w.handler(spec(reversed(h['m']), h['inc'], ell=0))):
+                try:
+                    ok = variant() is H
+                except BaseException:   # noqa
+                    ok = False
+                if not ok:
                     record(ctx, dict(kind='identity', a=dict(handler=h), b=dict(handler=spec(reversed(h['m']), h['inc'], ell=0))),
                            [('%s written in another order / multiplicity is not the identical class' % show_handler(h), None)], [])
-    if w.Concurrent[...] is not w.Concurrent:
+    try:
+        ok = w.Concurrent[...] is w.Concurrent
+    except BaseException:   # noqa
+        ok = False
+    if not ok:
         record(ctx, dict(kind='identity', a=dict(handler='bare'), b=dict(handler='bare')),
                [('Concurrent[...] is not Concurrent', None)], [])
     ctx.bump('identity_classes', len(entries))
     ctx.bump('identity_distinct_classes', len(first_key))
-    text = (HEADER + 'Definition tys : list (ty * nat) := [\n  %s].\n' % ';\n  '.join(
-        '(%s, %d)' % (term, i) for (_, _, term, _), i in zip(entries, ids)) +
+    text = (HEADER + 'Definition tys : list (ty * Z) := [\n  %s].\n' % ';\n  '.join(
+        '(%s, %d%%Z)' % (term, i) for (_, _, term, _), i in zip(entries, ids)) +
         'Eval vm_compute in (bad_ident tys).\n')
     p = ctx.write_case_file('identity', text)
     bad = coq_results(ctx, [p], {p: 'z'})[p]
@@ -503,7 +532,10 @@ def run_flatten(ctx, w, trees):
     cases = []
     for t in trees:
         case = dict(kind='flatten', raised=t)
-        exc, flat, problems = monitor_flatten(w, t)
+        exc = build(ctx, w, 'raised', t)
+        if exc is None:
+            continue
+        exc, flat, problems = monitor_flatten(w, t, exc)
         record(ctx, case, problems, [])
         ctx.count(('flatten', t), nontrivial=tree_depth(t) > 1)
         ctx.bump('flatten_depth_%d' % tree_depth(t))
@@ -540,7 +572,9 @@ def run_deep(ctx, w, n, d10, model=True):
     cases = []
     for t, h in deep_pairs(ctx.rng, n):
         case = dict(kind='pair', raised=t, handler=h)
-        exc, H = w.exc(t), w.handler(h)
+        exc, H = build(ctx, w, 'raised', t), build(ctx, w, 'handler', h)
+        if exc is None or H is None:
+            continue
         expected, v, problems = monitor_pair(w, t, h, exc, H)
         record(ctx, case, problems, d10)
         ctx.count((t, h), nontrivial=True)
@@ -578,7 +612,7 @@ D10_DIRECTED = dict(kind='pair', raised=[0, 3], handler=spec([0], True, ell=1)) 
 
 def report_d10(ctx, w, d10):
     """one KNOWN-FINDING report, on the directed case if it shows the finding"""
-    _, _, problems = monitor_pair(w, D10_DIRECTED['raised'], D10_DIRECTED['handler'])
+    problems = case_problems(w, D10_DIRECTED)
     directed = [p for p in problems if p[1] == 'D10']
     others = [p for p in problems if p[1] != 'D10']
     for expl, _ in others:
@@ -608,7 +642,7 @@ def search(ctx):
     run_deep(ctx, w, 40000, [], model=False)
     for _ in range(4000):
         t = rand_tree(ctx.rng, 4)
-        record(ctx, dict(kind='flatten', raised=t), monitor_flatten(w, t)[2], [])
+        record(ctx, dict(kind='flatten', raised=t), case_problems(w, dict(kind='flatten', raised=t)), [])
         del w.keep[:]
 
 
@@ -616,7 +650,16 @@ def search(ctx):
 # replay / shrink
 # ---------------------------------------------------------------------------------------------------
 def case_problems(w, case):
+    """the monitor on one case -> [(explanation, finding)]"""
+    for what in ('raised', 'handler'):
+        if what in case:
+            try:
+                w.exc(case[what]) if what == 'raised' else w.handler(case[what])
+            except BaseException as e:   # noqa
+                return [(build_problem(what, case[what], e), None)]
     kind = case.get('kind')
+    if kind == 'build':
+        return []
     if kind == 'pair':
         return monitor_pair(w, case['raised'], case['handler'])[2]
     if kind == 'flatten':
@@ -624,12 +667,15 @@ def case_problems(w, case):
     if kind == 'identity':
         objs, keys = [], []
         for d in (case['a'], case['b']):
-            if 'raised' in d:
-                objs.append(type(w.exc(d['raised'])))
-                keys.append(ckey_type(d['raised']))
-            else:
-                objs.append(w.handler(d['handler']))
-                keys.append(ckey_handler(d['handler']))
+            try:
+                if 'raised' in d:
+                    objs.append(type(w.exc(d['raised'])))
+                    keys.append(ckey_type(d['raised']))
+                else:
+                    objs.append(w.handler(d['handler']))
+                    keys.append(ckey_handler(d['handler']))
+            except BaseException as e:   # noqa
+                return [(build_problem('raised' if 'raised' in d else 'handler', d.get('raised', d.get('handler')), e), None)]
         if (objs[0] is objs[1]) != (keys[0] == keys[1]):
             return [('%s and %s: same set of listed types: %s, identical class: %s' % (
                 describe(case['a']), describe(case['b']), keys[0] == keys[1], objs[0] is objs[1]), None)]
@@ -666,7 +712,7 @@ def smaller(x):
 
 def shrink(ctx, failure):
     case = failure.case
-    if not isinstance(case, dict) or case.get('kind') not in ('pair', 'flatten'):
+    if not isinstance(case, dict) or case.get('kind') not in ('pair', 'flatten', 'build'):
         return case
     w = World()
 
